@@ -739,6 +739,13 @@ func runForward(t *tr.Trace, r *tr.Rand, n int) {
 		nframes := r.Range(10, 120)
 		var recent [][]byte
 		for fi := 0; fi < nframes; fi++ {
+			if stream != "steady" && g.tlayers < 4 && r.Chance(1, 18) {
+				// the publisher starts a further temporal layer in mid-stream (or its
+				// first frames were lost): the receiver sees a new top layer while its
+				// own selection may be below the old top, with a step up pending
+				g.tlayers++
+				h.t.Note("temporal-layer-added")
+			}
 			pkts := g.next(h, r)
 			// arrival order: loss, duplicates, reordering (whole-packet)
 			for pi := 0; pi < len(pkts); pi++ {
@@ -898,6 +905,30 @@ func fwdCorpus(t *tr.Trace, r *tr.Rand) {
 				}
 			}
 			h.dump()
+		}
+	}
+	// duplicates of every packet, withheld ones included, with the withheld
+	// packets falling on every number around the 16-bit wrap (0 and 65535 in
+	// particular: Map answers a packet it does not forward with (false, 0, 0))
+	for start := 65516; start < 65536; start++ {
+		h := newFwdHist(t, r, "corpus-duplicates-around-wrap", true, 256)
+		h.pidBits = 15
+		g := &frameGen{seq: uint16(start), pid: 100, m15: true, tlayers: 2, slayers: 1, kfEvery: 1000, ts: 1000}
+		h.rates(400000, "524288", 524288, false, 1) // congested: go down to tid 0
+		var all [][]byte
+		for fi := 0; fi < 24; fi++ {
+			for _, p := range g.next(h, r) {
+				all = append(all, p)
+				h.write(p, true, false)
+			}
+			if fi == 3 {
+				h.adjust()
+			}
+			if fi == 12 || fi == 23 {
+				for _, p := range all {
+					h.write(p, false, false)
+				}
+			}
 		}
 	}
 	// F31: two long loss bursts, each inside the window, so that a packet
